@@ -109,6 +109,9 @@ STATEMENT_STATUS: Dict[str, str] = {
     "header_ignored": "proved: the FontFile bytes have no influence unless the font is non-Type3, non-standard-14 and "
                       "has no Encoding entry",
     "exampleHeader_puts / put_underflow_ignored / odd_dict_raises": "proved by kernel evaluation of the tokeniser model on concrete headers",
+    "width_in_range / width_out_of_range": "proved: inside FirstChar..FirstChar+len(Widths)-1 the advance is the Widths entry x scale "
+                                           "whatever else the font says; outside (or without Widths) it is the standard-14 metric of "
+                                           "the code's character, else MissingWidth, x scale (LastChar is not consulted)",
     "differences_runs / run_numbering": "proved: a Differences array of any number of runs - the i-th name of a run starting at "
                                         "`first` gets code first + i for every i (no stop / wrap at 255, negative starts), "
                                         "the last assignment in whichever run wins, other codes keep the base encoding",
